@@ -61,6 +61,10 @@ impl Deserializer {
         ensures old(self).rem().len() > 0 && old(self).rem()[0] is UInt ==> r is Ok && r->Ok_0 == old(self).rem()[0]->UInt_0 && final(self).rem() == old(self).rem().skip(1),
                 r is Ok ==> old(self).rem().len() > 0 && old(self).rem()[0] is UInt     // cbor_event rejects any other type
     { unimplemented!() }
+    /// cbor_event's own nint reader returns an i64: exact for -2^63 ..= -1, nothing is promised below that (the library's read_nint exists for this reason)
+    #[verifier::external_body] pub fn negative_integer(&mut self) -> (r: Result<i64, CborError>)
+        ensures old(self).rem().len() > 0 && old(self).rem()[0] is NInt && -0x8000_0000_0000_0000 <= old(self).rem()[0]->NInt_0 <= -1 ==> r is Ok && r->Ok_0 == old(self).rem()[0]->NInt_0 && final(self).rem() == old(self).rem().skip(1),
+                r is Ok ==> old(self).rem().len() > 0 && old(self).rem()[0] is NInt { unimplemented!() }
     #[verifier::external_body] pub fn special(&mut self) -> (r: Result<CBORSpecial, CborError>)
         ensures old(self).rem().len() > 0 && old(self).rem()[0] is Special ==> r is Ok && r->Ok_0 == old(self).rem()[0]->Special_0 && final(self).rem() == old(self).rem().skip(1),
                 r is Ok ==> old(self).rem().len() > 0 && old(self).rem()[0] is Special { unimplemented!() }
